@@ -13,6 +13,18 @@ KX = {
     'U-incr-var': {'name': 'U-incr-var', 'harness_file': 'bounds.harness.rs', 'target': 'src/store/fs/bounds.rs', 'harnesses': ['incr_var'],
                    'function': 'increment_by_one (src/store/fs/bounds.rs)', 'class': 'bounded', 'bound': 'slice length <= 6',
                    'labels': ['bounds.increment_by_one.incr-var'], 'tier': 'quick'},
+    'U-dir': {'name': 'U-dir', 'harness_file': 'state.harness.rs', 'target': 'src/engine/state.rs', 'harnesses': ['dir_antisymmetric'],
+              'function': 'expected_sync_direction (src/engine/state.rs)', 'class': 'complete', 'bound': 'fixed width: all pairs of distinct 32-byte ids (memcmp unwound 32 times)',
+              'labels': ['C11.dir.antisymmetric'], 'tier': 'quick', 'trusted': ['EndpointId is built from arbitrary 32 bytes by transmute (layout of the newtype chain PublicKey -> CompressedEdwardsY -> [u8;32])']},
+    'U-xor': {'name': 'U-xor', 'harness_file': 'ranger.harness.rs', 'target': 'src/ranger.rs', 'harnesses': ['fingerprint_xor_bytewise'],
+              'function': 'impl BitXorAssign for Fingerprint (src/ranger.rs)', 'class': 'complete', 'bound': 'fixed width: all pairs of 32-byte fingerprints',
+              'labels': ['ranger.fingerprint.xor-bytewise'], 'tier': 'quick'},
+    'U-ord': {'name': 'U-ord', 'harness_file': 'valid.harness.rs', 'target': 'src/sync.rs', 'harnesses': ['record_cmp_is_ts_then_hash'],
+              'function': 'impl Ord / PartialOrd for Record (src/sync.rs)', 'class': 'complete', 'bound': 'all timestamps, lengths and 32-byte hashes (loop-free apart from the fixed-width byte compare)',
+              'labels': ['sync.record.cmp-is-timestamp-then-hash'], 'tier': 'quick'},
+    'U-shift': {'name': 'U-shift', 'harness_file': 'valid.harness.rs', 'target': 'src/sync.rs', 'harnesses': ['valid_max_shift_value'],
+                'function': 'const MAX_TIMESTAMP_FUTURE_SHIFT (src/sync.rs)', 'class': 'complete', 'bound': 'no input',
+                'labels': ['valid.const.max-shift-value'], 'tier': 'quick'},
 }
 
 A_REDB = 'A-redb: a redb table is a finite map ordered by the tuple order of its key type (component-wise, byte-wise lexicographic for &[u8] and [u8; N]); get/insert/remove are map operations; range(b) yields exactly the rows within b in ascending order; retain_in / extract_from_if remove exactly the rows in b for which the predicate holds; transactions, commit and durability are not modelled'
@@ -24,13 +36,33 @@ A_MODIFY = 'Store::modify(f) runs f exactly once on the tables of the current wr
 A_EXTRACT = 'redb extract_from_if followed by Iterator::count is modelled by a prophecy on the table view resolved by count(); storage errors in the middle of that iteration are not modelled'
 
 PROPS = {
+    'C03': {
+        'vx': ['U-valid-sig', 'U-valid-empty', 'U-valid-insert', 'U-valid-recon'],
+        'kx': [KX['U-shift']],
+        'assumptions': ['A-crypto: ed25519 verify_strict is an uninterpreted predicate sig_valid(pk bytes, message, signature); public-key parsing is an uninterpreted partial function of the 32 id bytes',
+                        'A-clock: system_time_now() <= u64::MAX - MAX_TIMESTAMP_FUTURE_SHIFT',
+                        'A-recon-gate: ranger::Store::process_message stores an incoming entry only after the validate callback returned true, continues with the remaining entries, and calls on_insert only for Inserted (src/ranger.rs "Store incoming values" loop: out of reach, not verified)',
+                        'the store put used by Replica::insert_entry is a shell over a ghost state that changes only on Inserted (its full contract is proved in U-store)',
+                        'transcribed From impls (thiserror / derive_more expansions) for the error enums'],
+        'not_covered': ['process_message itself (generic async routine, see C01) and its on_insert closure'],
+        'explanation': 'validate_entry / verify / validate_empty on the real text, the direct remote-insert path, and the validate closure of sync_process_message (lambda-lifted, rule R6) accept exactly the same predicate.',
+    },
+    'C12': {
+        'vx': ['U-valid-insert', 'U-policy-match'],
+        'kx': [],
+        'assumptions': ['Subscribers::send appends the event to a ghost event log (async channel internals, pointer identity via transmute_copy: not examined)',
+                        'the store put / get_download_policy used by Replica::insert_entry are shells with ghost logs',
+                        A_BYTES],
+        'not_covered': ['event emission inside sync_process_message on_insert closure (behind process_message)', 'Subscribers::{subscribe, unsubscribe, send}: channels, unsafe pointer comparison, concurrency', 'order across subscribers'],
+        'explanation': 'Direct ingress path: exactly one event, after the put, iff the put returned Inserted; none on any Err exit; Local / Remote marking with provider and content status; download flag equals the policy verdict.',
+    },
     'C07': {
-        'vx': ['U-cap-merge', 'U-cap-import'],
+        'vx': ['U-cap-merge', 'U-cap-import', 'U-valid-insert'],
         'kx': [],
         'assumptions': [A_REDB, A_MODIFY, 'A-crypto-2: NamespaceSecret is opaque; id(), to_bytes/from_bytes are uninterpreted with to_bytes/from_bytes mutually inverse',
                         'num_enum conversions of CapabilityKind: 1 = Write, 2 = Read, anything else an error (derive output not examined)',
                         'the error value produced by `?` conversions is unspecified in Verus, so "Err(NotFound) only if no row" for load_replica_info is not decided (the other direction is)'],
-        'not_covered': ['Action::ImportNamespace arm of Actor::on_action (spawn_local, iterator chains, async closures)', 'Replica::insert / delete_prefix gating: see unit U-valid-insert when registered'],
+        'not_covered': ['Action::ImportNamespace arm of Actor::on_action (spawn_local, iterator chains, async closures)'],
         'explanation': 'Capability::merge only upgrades and never replaces a write capability; raw/from_raw are inverse; import_namespace stores exactly the merge and touches no other row or table; load/close maintain the open set.',
     },
     'C09': {
@@ -59,8 +91,8 @@ PROPS = {
         'explanation': 'set_download_policy only for existing documents and writes exactly one row; get returns the decoded row or the default; get-after-set round trip; DownloadPolicy::matches / FilterKind::matches equal the stated rule.',
     },
     'C02': {
-        'vx': ['U-store', 'U-bounds'],
-        'kx': [KX['U-incr32'], KX['U-incr-var']],
+        'vx': ['U-store', 'U-bounds', 'U-valid-insert'],
+        'kx': [KX['U-incr32'], KX['U-incr-var'], KX['U-ord']],
         'assumptions': [A_REDB, A_INCR, A_BYTES, A_ENTRY, A_MODIFY, A_EXTRACT,
                         'the constructors of RecordsBounds used by the store units carry, as assumed contracts, exactly the postconditions proved on the real text in unit U-bounds',
                         'two entries with identical (author, key, timestamp, hash) but different len compare equal under Record::cmp; the contracts speak about the (timestamp, hash) order'],
@@ -69,7 +101,7 @@ PROPS = {
     },
     'C08': {
         'vx': ['U-store', 'U-bounds', 'U-first', 'U-range'],
-        'kx': [KX['U-incr32'], KX['U-incr-var']],
+        'kx': [KX['U-incr32'], KX['U-incr-var'], KX['U-ord'], KX['U-xor']],
         'assumptions': [A_REDB, A_INCR, A_BYTES, A_ENTRY, A_MODIFY, A_EXTRACT],
         'not_covered': ['transcript equality of whole sessions across backends (relational over process_message, see C01)',
                         'RecordsRange::{with_bounds,next} and the Chain/Flatten adaptors are shells: Verus cannot attach specifications to the provided trait methods Iterator::chain/flatten (one logged R8 map in get_range)',
@@ -100,7 +132,7 @@ PROPS = {
     },
     'C11': {
         'vx': ['U-peer', 'U-live-nss', 'U-live-handlers', 'U-live-dial'],
-        'kx': [],
+        'kx': [KX['U-dir']],
         'assumptions': [
             'SystemTime::now / Instant::now: arbitrary values (assume_specification without postcondition)',
             'expected_sync_direction is used through the uninterpreted predicate dir_is_accept in U-peer',
